@@ -178,6 +178,13 @@ package scanner
 // token carries the window as its position.
 //@ scan post arr(result.Value) == arr(lex.data) && off(result.Value) == off(lex.data) + lex.ts && len(result.Value) == lex.te - lex.ts
 //@ scan post result.ID != 0 ==> (result.Position != nil && result.Position.StartPos == lex.ts && result.Position.EndPos == lex.te)
+// C01 (no hang), the part of progress that is a fact about single actions: a token that is handed to
+// the parser is not empty, and an action that loops back to `_again` inside Lex has consumed at least
+// one byte (engine obligation `progress`: ts <= p on every edge into _again). The transitions that
+// are zero-length by design (hand-over to another scanner, fcall/fret of string_var) are withdrawn by
+// name in /verif/scan_unproved.jsonl: that their combination still terminates is a fact about the
+// automaton's language (and fails for a '$' inside a heredoc: known finding).
+//@ scan post result.ID != 0 ==> lex.ts < lex.te
 
 // ---------------------------------------------------------------------------------------------
 // E-SCAN: the generated machine Lex is cut at its labels; the invariant of every cut is the
